@@ -262,6 +262,9 @@ func solveObligation(o *Obligation, reg *Registry, cfg *SolverCfg) {
 		}
 	}
 	o.Status = "discharged"
+	if vacuityProbe {
+		probeVacuity(o, reg, cfg)
+	}
 }
 
 // vacuityProbe (diagnostic): after an obligation is discharged, are the premises of at least one of its
